@@ -109,6 +109,7 @@ def candidates(path):
 def main():
     ap = argparse.ArgumentParser(); ap.add_argument('pid'); ap.add_argument('--n', type=int, default=40); ap.add_argument('--seed', type=int, default=1)
     ap.add_argument('--files', default=''); ap.add_argument('--suite', action='store_true'); ap.add_argument('--scale', type=float, default=1.0)
+    ap.add_argument('--streams-of', default='', help='comma list of properties whose streams are run (default: the property itself); ALL = every property')
     a = ap.parse_args()
     pid = a.pid; files = a.files.split(',') if a.files else FILES[pid]
     setup()
@@ -116,15 +117,19 @@ def main():
     R.build_driver()
     rbin = HN + '/target/debug/verif-harness'
     spec = P.PROPS[pid]
-    # the property's quick streams, same seeding discipline as runner.run_check
-    rng_master = random.Random(1); lines = []
-    for st_ in spec['streams']:
-        (sname, genf, nq, nt) = st_[:4]; sopts = st_[4] if len(st_) > 4 else {}
-        rng = random.Random(rng_master.getrandbits(64))
-        if sopts.get('bin') == 'ta': continue
-        lines += list(genf(rng, int(nq * a.scale)))
+    # the quick streams (same seeding discipline as runner.run_check) of the property, or of the properties named by --streams-of
+    sof = [pid] if not a.streams_of else (sorted(x for x in P.PROPS if x != 'C15') if a.streams_of == 'ALL' else a.streams_of.split(','))
+    lines = []
+    for q in sof:
+        rng_master = random.Random(1)
+        for st_ in P.PROPS[q]['streams']:
+            (sname, genf, nq, nt) = st_[:4]; sopts = st_[4] if len(st_) > 4 else {}
+            rng = random.Random(rng_master.getrandbits(64))
+            if sopts.get('bin') == 'ta' or P.PROPS[q].get('panic_only'): continue
+            if q == 'C07' and len(sof) > 1: nq = nq // 4
+            lines += list(genf(rng, int(nq * a.scale)))
     scratch = MS + '/scratch_' + pid; shutil.rmtree(scratch, ignore_errors=True); os.makedirs(scratch)
-    panic_only = spec.get('panic_only')
+    panic_only = spec.get('panic_only') and len(sof) == 1
     def run():
         if panic_only: outs, verdicts, s = R.run_cases_panic_only(lines, scratch, rbin, 'm')
         else: outs, verdicts, s = R.run_cases(lines, scratch, runner_bin=rbin, tag='m')
@@ -134,7 +139,7 @@ def main():
     print('baseline: %d cases, %d not accepted %s' % (len(lines), nb, first)); assert nb == 0
     rng = random.Random(a.seed)
     os.makedirs(os.path.join(ROOT, 'notes', 'mutscan'), exist_ok=True)
-    logp = os.path.join(ROOT, 'notes', 'mutscan', '%s.jsonl' % pid)
+    logp = os.path.join(ROOT, 'notes', 'mutscan', '%s%s.jsonl' % (pid, '_all' if a.streams_of else ''))
     done = 0; tried = 0; stats = dict(detected=0, undetected=0, nocompile=0)
     cand = {f: candidates(os.path.join(WT, 'src', f)) for f in files}
     weights = [len(cand[f]) for f in files]
